@@ -19,5 +19,9 @@ PROP = {
         {"name": "proc03", "pkg": "./internal/pkg/verifproc", "run": "^TestVerif_C03_Proc$", "kind": "rapid",
          "facets": ["C03/proc"], "checks": (3, 40), "shards": (12, 16), "timeout": (600, 3000), "shrinktime": (20, 60)},
         dict(_m.SIM_UNIT),
+        # the disk watcher is the first thing stopPipeline() stops: its stop must return in every state, also while the
+        # watcher's own low-disk pause is in force (real WatchDiskSpace under virtual time, shared with C18/watcher)
+        {"name": "c03watch", "pkg": "./internal/pkg/controler/watchers", "run": "^TestVerif_C18_Watcher$", "kind": "rapid", "toolchain": "go126",
+         "facets": ["C03/watcher-stop"], "checks": (1500, 20000), "shards": (2, 8), "timeout": (600, 3000)},
     ],
 }
